@@ -138,6 +138,20 @@ def generate(rng, tier):
         line = i1_line(S, xs, shape, flat, ("spl", False, bc), ent,
                        dtag=dtag, xlay=rng.choice(gen.LAYS_1D), dlay=rng.choice(gen.LAYS_ND))
         cases.append({"line": line, "meta": {"xs": xs, "shape": shape, "flat": flat, "bc": bc, "lanes": lanes, "qs": qs, "S": S}})
+    # long, unevenly spaced axes in exact arithmetic (64 .. 96 points; seed C02-r11m1: a different elimination order for systems of 64 rows
+    # or more, wrong only where a_low != a_up, i.e. on non-uniform axes)
+    for _ in range(gen.N(tier, 3, 24)):
+        n = rng.choice([64, 66, 70, 96])
+        xs = gen.long_axis(rng, rng.choice(gen.LONG_KINDS), n, "Q")
+        L = rng.choice([1, 1, 2])
+        shape = [n] + ([] if L == 1 else [L])
+        flat = gen.vals_q(rng, n * L, "int")
+        bc, lanes = rand_bc(rng, "Q", L, shape[1:], True)
+        if bc == "per":
+            flat[(n - 1) * L:] = flat[:L]
+        qs = sample_queries(xs, "Q")
+        line = i1_line("Q", xs, shape, flat, ("spl", False, bc), e_array("Q", [len(qs)], qs))
+        cases.append({"line": line, "meta": {"xs": xs, "shape": shape, "flat": flat, "bc": bc, "lanes": lanes, "qs": qs, "S": "Q"}})
     return cases
 
 
